@@ -11,7 +11,7 @@ REQUIRED = ["created:iff", "created:ids", "created:prefix-set", "potential:value
             "prefix_iter:count", "reach:op:page", "reach:op:rule", "reach:created", "reach:not-created", "reach:anchored-rule-wins",
             "reach:default-rule", "reach:www-variation", "reach:hand-made-webentity", "reach:anchor-is-page"]
 OUTSIDE = ["rule patterns outside Hyphe's family (domain, subdomain, path1, path2)",
-           "host payloads containing digits, 'l', 'L' or '[' (the localhost / IPv4 / IPv6 arms of the patterns are unreachable by assumption, checked by the symbolic regex matcher on every path)",
+           "symbolic host payloads containing digits, 'l', 'L' or '[' (symbolic hosts stay off the localhost / IPv4 / IPv6 arms of the patterns; those arms are exercised with the concrete hosts LOCALHOST, [2001:DB8::1], 127.0.0.1 in the special-hosts level)",
            "stem payloads longer than 2 bytes (a payload could then contain a second 's:x' scheme start)",
            "more than 3 pool LRUs, 3 page insertions + 1 rule installation"]
 STUBS_EXTRA = ["the oracle's rule semantics is structural (harness.common.rule_prefix), not a regex engine"]
@@ -31,7 +31,7 @@ def levels(tier):
             {"name": "pages-n1", "pools": ["a", "b"], "n": 1, "alphabet": ["page"], "defaults": ["domain", "path1"],
              "anchored": [None, (1, 4, "path1"), (0, 3, "subdomain")]},
             {"name": "pages-n2", "pools": ["a"], "n": 2, "alphabet": ["page"], "defaults": ["domain"],
-             "anchored": [None, (1, 4, "path1")]},
+             "anchored": [(1, 4, "path1")]},
             {"name": "handmade", "pools": ["a"], "n": 1, "prelude": [["we", [[0, 3]]]], "alphabet": ["page", "we"],
              "defaults": ["subdomain", "path1"], "anchored": [None, (2, 5, "path1")]},
             {"name": "install", "pools": ["a"], "n": 2, "alphabet": ["page"], "defaults": ["domain"],
